@@ -1,5 +1,6 @@
 """Which harness modules decide which property."""
 PROPERTIES = {
+    "C13": ["harness.C13_valid_runs"],
     "C06": ["harness.C06_stop"],
     "C04": ["harness.C04_incremental"],
     "C05": ["harness.C05_protocol"],
